@@ -35,6 +35,12 @@ func runC01(w *World) *Result {
 	SignRule(w, r, "R-C01-sign")
 	r.Rule("R-C01-chain", "else-if and else continue the open if construct (one compound command: exactly one branch runs)", 2)
 	ChainRule(w, bash, r, "R-C01-chain")
+	r.Rule("R-C01-scope", "loop and branch constructs declare their variables in a clone of the context: sibling constructs can reuse a name (well-typed programs stay accepted)", 3)
+	if cf, err := buildCtxFacts(w); err == nil {
+		c07Clone(w, cf, r, "R-C01-scope")
+	} else {
+		r.Bad("R-C01-scope", "context:facts", "-", err.Error())
+	}
 	r.Rule("R-C01-numcmp", "Bash test commands order numbers with -lt/-le/-gt/-ge, never with < or > (text order)", 3)
 	BashTestOrderRule(w, bash, r, "R-C01-numcmp", func(l *Line) bool { return l.Em.Helper == "" })
 	ExitRule(w, bash, batch, r, "R-C01-exit")
@@ -70,6 +76,8 @@ func runC05(w *World) *Result {
 	SiblingCells(w, bash, batch, r, "R-C05-optable")
 	AllocRule(w, batch, r, "R-C05-alloc")
 	PopRule(w, "batch", r, "R-C05-alloc")
+	r.Rule("R-C05-reg", "Batch: return / argument registers are written and read under the same stem and index, and the result of a call is copied out of the register right after the call line", 2)
+	RegisterRule(w, batch, r, "R-C05-reg")
 	r.Rule("R-C05-exit", "Batch: the exit status is expanded before the local environment is dropped; a panic ends the script from any call depth", 2)
 	BatchExitRule(w, batch, r, "R-C05-exit")
 	r.Rule("R-C05-chain", "Batch: else-if and else continue the open if block", 2)
@@ -111,6 +119,7 @@ func runC02(w *World) *Result {
 	r.Rule("R-C02-reg", "return/argument registers: writer and reader agree on stem and index; reads follow the call line", 5)
 	r.Rule("R-C02-frame", "the numeric prefix of function-local names is a counter advanced only by FuncStart, before its first line", 2)
 	r.Rule("R-C02-pop", "every construct stack pushed by an opener is popped by its closer, and a pop removes exactly the top element (the function stack decides whether names are mangled as locals)", 2)
+	r.Rule("R-C08-quote", "C08's per-hole quoting rule restricted to FuncCall: every argument is exactly one word whatever it contains (arguments bind to parameters in order)", 1)
 	r.Rule("R-C02-store", "multi-target assignment: all right-hand sides are evaluated (and snapshotted) before the first store", 1)
 	c02Store(w, r)
 	r.Rule("R-C02-ident", "statements referring to existing variables carry the looked-up definition; lookups find file-prefixed globals from any scope", 6)
@@ -125,6 +134,7 @@ func runC02(w *World) *Result {
 		RegisterRule(w, b, r, "R-C02-reg")
 		if role == "bash" {
 			PositionalRule(w, b, r, "R-C02-reg")
+			c08Quote(w, b, r, func(m string) bool { return m == "FuncCall" })
 		}
 		FrameRule(w, b, r, "R-C02-frame")
 		PopRule(w, role, r, "R-C02-pop", "FuncStart")
